@@ -219,3 +219,44 @@ package gtab
 //@   opt assume_make=1
 //@   may_panic
 //@   modifies nothing
+
+// LookupList.encode is checked as an encoder only: every 16-bit offset or
+// count it stores must be lossless.  Run-time safety and termination of this
+// function are NOT claimed (opt only=frame): its layout logic (chunk codes,
+// tryReorder) is not under contract.  Assumed and reported as unchecked: every
+// lookup TABLE starts at an offset <= 0xFFFF (tryReorder panics otherwise).
+// What remains to be proved are the subtable offsets relative to their
+// lookup table.
+//@ assume func (ll LookupList) tryReorder(chunks []layoutChunk) (res []layoutChunk)
+//@   ensures isnil(res) || fresh(res)
+//@   modifies nothing
+//@ assume func (l *extensionSubtable) encode() (res []byte)
+//@   ensures fresh(res) && len(res) == 8
+//@   modifies nothing
+//@ assume func (s Subtable) encodeLen() (n int)
+//@   ensures 0 <= n && n <= 4294967295
+//@   modifies nothing
+//@ assume func (s Subtable) encode() (res []byte)
+//@   ensures isnil(res) || fresh(res)
+//@   modifies nothing
+//@ func (ll LookupList) encode() (res []byte)   props: C08
+//@   encoder
+//@   opt only=frame
+//@   opt assume_make=1
+//@   requires len(ll) < 16384 && forall i int :: 0 <= i && i < len(ll) ==> ll[i] != nil && len(ll[i].Subtables) < 16384   // larger lists are refused by panic
+//@   may_panic
+//@   modifies nothing
+//@   loop 2
+//@     invariant isnil(chunks) || fresh(chunks)
+//@   loop 3
+//@     invariant isnil(chunks) || fresh(chunks)
+//@   loop 5
+//@     invariant chunkPos != nil && fresh(chunkPos)
+//@   loop 6
+//@     invariant (isnil(buf) || fresh(buf)) && chunkPos != nil
+//@     free_invariant forall c uint32 :: (c / 268435456) % 16 == 1 ==> chunkPos[c] <= 65535
+//@   loop 7
+//@     invariant (isnil(buf) || fresh(buf)) && chunkPos != nil
+//@     free_invariant forall c uint32 :: (c / 268435456) % 16 == 1 ==> chunkPos[c] <= 65535
+//@   loop 8
+//@     invariant (isnil(buf) || fresh(buf)) && chunkPos != nil && subTableCount < 16384
